@@ -219,6 +219,14 @@ def tlc_trace(module, cfg, trace_path, *, timeout=1800, env=None, xmx="6g", extr
         m = RE_TRACE_RES.search(l)
         if m:
             matched, total = int(m.group(1)), int(m.group(2))
+    if matched is None and r.violated:
+        # an invariant was false in a state of the recorded execution; TLC stops there and prints the
+        # behaviour: the last "State N:" is the violating state, reached by consuming event N-1
+        ns = [int(m.group(1)) for m in re.finditer(r"^State (\d+):", r.tail, re.M)]
+        if ns:
+            total = sum(1 for _ in open(trace_path))
+            matched = max(0, max(ns) - 2)
+            return matched, total, r
     if matched is None:
         sys.stderr.write(r.tail + "\n")
         raise ToolError(f"trace validation of {trace_path} with {module} produced no TRACE_RESULT")
